@@ -517,7 +517,7 @@ void iwhmap_iter_init(struct iwhmap *hm, struct iwhmap_iter *iter) {
 }
 
 bool iwhmap_iter_next(struct iwhmap_iter *iter) {
-  if (!iter->hm) {
+  if (!iter->hm || iter->bucket >= _n_buckets(iter->hm)) {
     return false;
   }
   entry_t *entry;
